@@ -59,7 +59,8 @@ def required(tier):
           'hcco:equal-calibration-flows', 'isa:array:mixed-layers', 'isa:array:integer-altitudes',
           'nox:per-point-atmosphere', 'nox:permutation', 'hcco:per-point-atmosphere',
           'hcco:permutation', 'ffm2:array', 'hcco:calibration-flows-equal-up-to-rounding',
-          'thrust-mode-values:non-standard-insertion-order']
+          'thrust-mode-values:non-standard-insertion-order', 'hcco:idle-and-approach-EI-equal',
+          'nox:nonpositive-flow:very-small-engine']
     cl += [f'hcco:{b}' for b in HCCO_BRANCHES]
     return {'classes': cl, 'evaluations': 20000}
 
@@ -104,7 +105,9 @@ def run_shard(spec, rec):
     def gen_flows(rng):
         """calibration flows: monotone, non-monotone or with equal neighbours"""
         kind = rng.choice(['monotone', 'monotone', 'non-monotone', 'equal'])
-        base = sorted(10 ** rng.uniform(-1.5, 0.7) for _ in range(4))
+        # 0.03 .. 5 kg/s; one set in six is a very small engine (down to 0.5 g/s at idle)
+        lo_exp = -3.3 if rng.random() < 0.17 else -1.5
+        base = sorted(10 ** rng.uniform(lo_exp, lo_exp + 2.2) for _ in range(4))
         for i in range(1, 4):                       # >= 2 % apart
             if base[i] < base[i - 1] * 1.02:
                 base[i] = base[i - 1] * (1.02 + rng.random())
@@ -316,6 +319,8 @@ def run_shard(spec, rec):
                 rec.cls(f'nox:cat:{cat}')
                 if f <= 0:
                     rec.cls('nox:nonpositive-flow')
+                    if 0.5 * (ff_cal['idle'] + ff_cal['approach']) < 0.01:
+                        rec.cls('nox:nonpositive-flow:very-small-engine')
             rec.cls('nox:scaling')
 
             # ---------------- thrust categories ------------------------------------------
@@ -339,7 +344,10 @@ def run_shard(spec, rec):
             # ---------------- HC / CO ---------------------------------------------------------
             eih = gen_eis(rng)
             shape = rng.random()
-            if shape < 0.25:      # rising idle->approach (non-negative slope)
+            if shape < 0.07:      # idle and approach certification EIs exactly equal
+                eih['approach'] = eih['idle']
+                rec.cls('hcco:idle-and-approach-EI-equal')
+            elif shape < 0.25:      # rising idle->approach (non-negative slope)
                 eih['approach'] = eih['idle'] * rng.uniform(1.0, 5.0)
             elif shape < 0.6:     # steeply falling: intercept beyond climb flow
                 eih['approach'] = eih['idle'] * 10 ** rng.uniform(-2.5, -0.05)
@@ -382,7 +390,22 @@ def run_shard(spec, rec):
                 g = float(out[i])
                 det = {'ff': f, 'ff_cal': ff_cal, 'ei_cal': eih, 'T': T_i, 'P': P_i, 'got': g,
                        'expected': e, 'branch': br, 'flows': flow_kind}
-                check(rel_close(g, e) or (g == 0.0 and abs(e) < 1e-300),
+                okv = rel_close(g, e) or (g == 0.0 and abs(e) < 1e-300)
+                if not okv:
+                    # the cited method is discontinuous where two calibration flows coincide
+                    # (which rule applies flips): with flows a few ulps apart either side of
+                    # the discontinuity is a faithful answer
+                    for mode_ in ('approach', 'climb', 'idle'):
+                        for up in (0.0, math.inf):
+                            alt_cal = dict(ff_cal)
+                            for _ in range(8):
+                                alt_cal[mode_] = math.nextafter(alt_cal[mode_], up)
+                            near = any(m2 != mode_ and abs(ff_cal[m2] / ff_cal[mode_] - 1) < 1e-12
+                                       for m2 in MODES)
+                            if near and rel_close(g, R.hcco(f, eih, alt_cal, T_i, P_i)[0], 1e-7):
+                                okv = True
+                                rec.cls('hcco:on-a-discontinuity-of-the-method')
+                check(okv,
                       'HC/CO EI differs from the BFFM2 bilinear fit with its documented rules',
                       det)
                 check(math.isfinite(g) and g >= 0, 'HC/CO EI not finite/>=0', det)
